@@ -224,7 +224,11 @@ def run_flags(ctx: Ctx, rule: str) -> None:
     src = ast.unparse(f.node)
     # the work list starts with the root (or, skipping it, with its children) and grows by the children of every flagged node
     starts = [ast.unparse(s_.value) for s_ in ast.walk(f.node) if isinstance(s_, ast.Assign) and ast.unparse(s_.targets[0]) == "flagged"]
-    ok2 = "test_node.should_run = flag.__get__(test_node)" in src and "flagged.extend(test_node.cleanup_nodes)" in src \
+    # the bound flag may be named once and stored in either decision
+    bound = {ast.unparse(a_.targets[0]) for a_ in ast.walk(f.node) if isinstance(a_, ast.Assign) and len(a_.targets) == 1 and isinstance(a_.targets[0], ast.Name)
+             and ast.unparse(a_.value) == "flag.__get__(test_node)"} | {"flag.__get__(test_node)"}
+    run_store = [a_ for a_ in ast.walk(f.node) if isinstance(a_, ast.Assign) and ast.unparse(a_.targets[0]) == "test_node.should_run"]
+    ok2 = len(run_store) == 1 and ast.unparse(run_store[0].value) in bound and "flagged.extend(test_node.cleanup_nodes)" in src \
         and starts == ["list(test_node.cleanup_nodes) if skip_parents else [test_node]"]
     ctx.record(rule + "f", "TABLE", f.ref, "flag_children binds the flag to each node reached through cleanup edges from the root (root included unless skipped)", ok2, {},
                "" if ok2 else "flag_children no longer reaches every descendant of the root")
@@ -289,10 +293,15 @@ def step_table(ctx: Ctx, rule: str) -> None:
     if len(tries) == 1 and not tries[0].handlers:
         t = tries[0]
         tool_calls = [c for x in t.body for c in calls_in(x) if isinstance(c.func, ast.Name) and c.func.id == "tool"]
-        ok3 = (pre[:2] == ["setup_dict = config['param_dict'].copy()", "config['param_dict'].update(param_dict)"] and len(tool_calls) == 1
-               and ast.unparse(tool_calls[0]) == "tool(config, tag=tag)" and [ast.unparse(x) for x in t.finalbody] == ["config['param_dict'] = setup_dict"]
+        # whatever the saved copy is called: <saved> = config['param_dict'].copy() ... finally: config['param_dict'] = <saved>
+        first = next((x for x in f.node.body if isinstance(x, ast.Assign)), None)
+        saved = first.targets[0].id if first is not None and len(first.targets) == 1 and isinstance(first.targets[0], ast.Name) else "?"
+        rebinds = [x for x in ast.walk(f.node) if isinstance(x, (ast.Assign, ast.AugAssign)) and x is not first
+                   and saved in {n_.id for t_ in (x.targets if isinstance(x, ast.Assign) else [x.target]) for n_ in ast.walk(t_) if isinstance(n_, ast.Name) and isinstance(n_.ctx, ast.Store)}]
+        ok3 = (pre[:2] == [f"{saved} = config['param_dict'].copy()", "config['param_dict'].update(param_dict)"] and len(tool_calls) == 1 and not rebinds
+               and ast.unparse(tool_calls[0]) == "tool(config, tag=tag)" and [ast.unparse(x) for x in t.finalbody] == [f"config['param_dict'] = {saved}"]
                and f.node.body.index(t) > 0 and len([c for c in calls_in(f.node) if isinstance(c.func, ast.Name) and c.func.id == "tool"]) == 1)
-    elif any("config['param_dict'] = setup_dict" in b for b in body):
+    elif any(b.startswith("config['param_dict'] = ") for b in body):
         why3 = "the temporary parameters of create/collect/clean are restored only when the reused tool returns normally: a raising step (after which the chain goes on) leaks them into all later steps"
     ctx.record(rule + "p", "PAIR", f.ref, "the temporary parameters are applied for the reused tool only: a copy is saved before and restored in a finally (normal return and exception alike)", ok3, {"body": body},
                "" if ok3 else why3)
